@@ -113,9 +113,15 @@ impl State for S {
                     Ok(n) => n,
                     Err(e) => return format!("err | create:{}", class(&e)),
                 };
-                if let [size] = rest {
-                    let Ok(n) = size.parse::<usize>() else { return "bad-op".into() };
-                    tx.set_node_property(node, "k".to_string(), PV::String("a".repeat(n)));
+                if let [tok] = rest {
+                    let v = match tok.parse::<usize>() {
+                        Ok(n) => PV::String("a".repeat(n)),
+                        Err(_) => match parse_val(tok) {
+                            Some(v) => v,
+                            None => return "bad-op".into(),
+                        },
+                    };
+                    tx.set_node_property(node, "k".to_string(), v);
                 }
                 match tx.commit() {
                     Ok(()) => format!("ok | {}", node),
@@ -150,6 +156,33 @@ impl State for S {
                 if k < f.len() {
                     let i = f.len() - 1 - k;
                     f[i] ^= 1 << (b % 8);
+                    std::fs::write(self.wal_path(), &f).expect("write");
+                }
+                "ok".into()
+            }
+            ["flipat", p, b] => {
+                if self.wal.is_some() || self.eng.is_some() {
+                    return "bad-op".into();
+                }
+                let (Ok(i), Ok(b)) = (p.parse::<usize>(), b.parse::<u32>()) else { return "bad-op".into() };
+                let mut f = self.file();
+                if i < f.len() {
+                    f[i] ^= 1 << (b % 8);
+                    std::fs::write(self.wal_path(), &f).expect("write");
+                }
+                "ok".into()
+            }
+            ["zeroat", p, n] => {
+                if self.wal.is_some() || self.eng.is_some() {
+                    return "bad-op".into();
+                }
+                let (Ok(i), Ok(n)) = (p.parse::<usize>(), n.parse::<usize>()) else { return "bad-op".into() };
+                let mut f = self.file();
+                let end = (i + n).min(f.len());
+                if i < end {
+                    for b in &mut f[i..end] {
+                        *b = 0;
+                    }
                     std::fs::write(self.wal_path(), &f).expect("write");
                 }
                 "ok".into()
@@ -327,6 +360,100 @@ fn generate(rng: &mut Rng, n: usize, tier: &str, out: &mut dyn Write) {
     writeln!(out, "#case engine oversize").unwrap();
     for l in ["eopen", "ecommit 10", "ecommit 11 1100000", "ecommit 12", "eclose", "eopen", "ecommit 13", "eclose", "read"] {
         writeln!(out, "{l}").unwrap();
+    }
+    // G. corruption in a NON-final record: valid frames of discarded transactions follow the damage; after the
+    //    reopen, same-shaped transactions are committed so that the new records end exactly on old frame
+    //    boundaries.  Nothing of the discarded transactions may come back.
+    let k: u64 = 4;
+    let uniform: Vec<WalRecord> = (1..=k)
+        .flat_map(|t| {
+            vec![
+                WalRecord::BeginTx { txid: t },
+                WalRecord::CreateEdge { src: t as u32, rel: 1, dst: t as u32 },
+                WalRecord::CommitTx { txid: t },
+            ]
+        })
+        .collect();
+    let mut starts = Vec::new();
+    let mut off = 0usize;
+    for r in &uniform {
+        starts.push(off);
+        off += frame_of(r).len();
+    }
+    let rec_step = if thorough { 1 } else { 1 };
+    for j in (0..uniform.len()).step_by(rec_step) {
+        let flen = frame_of(&uniform[j]).len();
+        let damages = [
+            format!("flipat {} 0", starts[j] + 9),        // body byte
+            format!("flipat {} 3", starts[j] + 5),        // checksum field
+            format!("flipat {} 0", starts[j]),            // length field
+            format!("zeroat {} {}", starts[j], flen),     // lost sector
+        ];
+        let discarded = k as usize - j / 3; // transactions from the damaged one to the end
+        let mut ms = vec![1usize, 2, discarded];
+        ms.sort();
+        ms.dedup();
+        for (di, d) in damages.iter().enumerate() {
+            for &m in &ms {
+                writeln!(out, "#case midlog rec{j} dmg{di} commits{m}").unwrap();
+                write_log(out, &uniform);
+                writeln!(out, "{d}").unwrap();
+                writeln!(out, "read").unwrap();
+                writeln!(out, "wopen").unwrap();
+                for c in 0..m as u64 {
+                    writeln!(out, "wappend B/{}", 60 + c).unwrap();
+                    writeln!(out, "wappend CE/9/1/9").unwrap();
+                    writeln!(out, "wappend C/{}", 60 + c).unwrap();
+                }
+                writeln!(out, "wclose").unwrap();
+                writeln!(out, "read").unwrap();
+                writeln!(out, "wlen").unwrap();
+                writeln!(out, "wopen").unwrap();
+                writeln!(out, "wclose").unwrap();
+                writeln!(out, "read").unwrap();
+            }
+        }
+    }
+    // the same through the engine: four one-node transactions (59 bytes each), damage in transaction j
+    for j in 1..=3usize {
+        for m in 1..=3usize {
+            for (di, d) in [format!("flipat {} 0", 59 * j + 9), format!("zeroat {} 17", 59 * j)].iter().enumerate() {
+                writeln!(out, "#case engine midlog tx{j} dmg{di} commits{m}").unwrap();
+                for l in ["eopen", "ecommit 10", "ecommit 11", "ecommit 12", "ecommit 13", "eclose", "wlen"] {
+                    writeln!(out, "{l}").unwrap();
+                }
+                writeln!(out, "{d}").unwrap();
+                writeln!(out, "eopen").unwrap();
+                for c in 0..m {
+                    writeln!(out, "ecommit {}", 20 + c).unwrap();
+                }
+                for l in ["eclose", "read", "wlen", "eopen", "eclose", "read"] {
+                    writeln!(out, "{l}").unwrap();
+                }
+            }
+        }
+    }
+    // H. property values at the decoder's nesting limit through a real append + replay: what append accepts must
+    //    come back, what the decoder could not read must be refused — and never take later commits with it
+    for (i, v) in super::codec::boundary_family().iter().enumerate() {
+        let t = show_val(v);
+        writeln!(out, "#case nesting wal {i}").unwrap();
+        for l in ["wopen", "wappend B/1", "wappend CE/1/1/1", "wappend C/1", "wappend B/2"] {
+            writeln!(out, "{l}").unwrap();
+        }
+        writeln!(out, "wappend SNP/0/6b/{t}").unwrap();
+        for l in ["wappend C/2", "wappend B/3", "wappend TN/0", "wappend C/3", "wclose", "read", "wopen", "wappend B/4", "wappend C/4", "wclose", "read"] {
+            writeln!(out, "{l}").unwrap();
+        }
+        if i % 7 == 0 || thorough {
+            writeln!(out, "#case nesting engine {i}").unwrap();
+            writeln!(out, "eopen").unwrap();
+            writeln!(out, "ecommit 10").unwrap();
+            writeln!(out, "ecommit 11 {t}").unwrap();
+            for l in ["ecommit 12", "eclose", "read", "eopen", "ecommit 13", "eclose", "read"] {
+                writeln!(out, "{l}").unwrap();
+            }
+        }
     }
     // F. random tails and random damage
     for i in 0..n {
